@@ -2052,13 +2052,6 @@ func (h *fsmHandler) established(ctx context.Context) (bgp.FSMState, *fsmStateRe
 	// reset the write deadline that was set in the connection establishment.
 	fsm.conn.SetWriteDeadline(time.Time{})
 
-	// a notification queued while no session was established (e.g. an
-	// operator's shutdown or reset request) must not tear down this one.
-	select {
-	case <-fsm.notification:
-	default:
-	}
-
 	ioCtx, cancel := context.WithCancel(ctx)
 	wg := &sync.WaitGroup{}
 	wg.Add(2)
@@ -2263,6 +2256,18 @@ func (h *fsmHandler) loop(ctx context.Context, wg *sync.WaitGroup) {
 
 		if ctx.Err() != nil {
 			break
+		}
+
+		if nextState == bgp.BGP_FSM_ESTABLISHED {
+			// a notification queued while no session was established (e.g. an
+			// operator's shutdown or reset request) must not tear down this one.
+			// It is dropped before the new state is announced and published: a
+			// request made once the peer is seen as established is for this
+			// session and established() has to find it.
+			select {
+			case <-fsm.notification:
+			default:
+			}
 		}
 
 		h.fsm.stateChange(nextState, reason)
